@@ -4,7 +4,7 @@
     below are about the formulas the code contains now; the Kronecker loop of as_matrix,
     parsing/printing and the operator bookkeeping are the hand-written model
     (Qib.Pauli.PauliModel), tied to the code by the correspondence run. *)
-From Qib Require Import Pauli.PauliProofs2 Base.Inst.
+From Qib Require Import Pauli.PauliProofs3 Base.Inst.
 From Run Require Import GenPauli.
 
 Section C09.
@@ -170,6 +170,14 @@ Theorem C09_constructor_rule :
     end.
 Proof. intros. split; [reflexivity|apply pauli_ctor_spec]. Qed.
 Print Assumptions C09_constructor_rule.
+
+(** 9. set_pauli edits exactly one letter (its matrix is then given by theorem 1) *)
+Theorem C09_set_pauli :
+  forall n p zv xv i, wfp n p -> (i < n)%nat ->
+  wfp n (set_pauli p zv xv i) /\ pq (set_pauli p zv xv i) = pq p /\
+  forall j, get_pauli (set_pauli p zv xv i) j = if Nat.eqb i j then (zv, xv) else get_pauli p j.
+Proof. exact set_pauli_spec. Qed.
+Print Assumptions C09_set_pauli.
 
 (** non-vacuity: a concrete non-trivial instance over the Gaussian integers *)
 Example C09_instance :
